@@ -2601,7 +2601,9 @@ func (rl *clientConnReadLoop) handleResponse(cs *clientStream, f *MetaHeadersFra
 	}
 
 	if f.StreamEnded() {
-		if res.ContentLength > 0 {
+		// A Content-Length on a response whose status never has a body
+		// (RFC 9110 section 8.6 allows it on 304) does not announce one.
+		if res.ContentLength > 0 && bodyAllowedForStatus(statusCode) {
 			res.Body = missingBody{}
 		} else {
 			res.Body = noBody
